@@ -317,6 +317,10 @@ Definition kv_hasht : hasht Z :=
   Hasht (fun c => [TCall 1 [c / 256]; TCall 1 [c mod 256]])
         (provided_hash_slice (fun c => [TCall 1 [c / 256]; TCall 1 [c mod 256]])).
 
+(* Wb(u8): one byte with a hand-written Hash: write_u8(x); write_u8(0xAA); hash_slice is the provided loop *)
+Definition wb_hasht : hasht Z :=
+  Hasht (fun x => [TCall 1 [x]; TCall 1 [170]]) (provided_hash_slice (fun x => [TCall 1 [x]; TCall 1 [170]])).
+
 (* nested GenericArray<u8, U2> elements: the impls above, one level down *)
 Definition nest_eq : garr Z -> garr Z -> bool := ga_eq int_eq.
 Definition nest_pcmp : garr Z -> garr Z -> option comparison := ga_partial_cmp int_pcmp.
